@@ -15,6 +15,9 @@ def check(ctx):
         o["rule"] = "R7"
     # R6: override scope = shared truth tables of C10 (first forward pass only, frame 0 only)
     c10.rules_override_scope(ctx, prefix="R6")
+    # the animator's timelines are merged timelines: the blend must reach every component (C12/R2)
+    from rules import c12
+    c12.check_loop_method(ctx, ctx.facts, "R8", "start_with", mutable=True)
     ctx.notes.append("not decided: that update at time 0 reproduces the override exactly as a float value "
                      "(ease(0)=0 and lerp at 0 are covered structurally by C02/R1 and C13); equality of values over "
                      "real histories")
